@@ -390,6 +390,7 @@ def check(ctx):
     w_src = origin(wr[0].args[0], holder(wr[0]))[0] if wr[0].args else None
     rep.add('U4', fc.site(wr[0]), 'the tree is printed as Newick on standard output', w_src is lt[0] and [u(a) for a in wr[0].args[1:]] == ['sys.stdout', "'newick'"] and not wr[0].keywords, expected="Phylo.write(tree, sys.stdout, 'newick')",
             found=u(wr[0]), stmt='newick')
+    rep.account_exits('U4', fc, [holder(wr[0])], 'the tree is printed')
     # "twice the height at which UPGMA clustering of the genomes' pairwise distance matrix merges them": the matrix handed to the
     # clustering must be the true pairwise matrix - cell provenance and pairwise layout of C05, re-evaluated
     from . import c05
@@ -454,6 +455,7 @@ _INNER = ("\t\tchildren = []\n\n\t\tfor child_i in (left_i, right_i):\n\t\t\tchi
           "\t\t\tchild_height = 0 if child_i < nleaves else link[child_i - nleaves, 2]\n\t\t\tchild.branch_length = height - child_height\n\t\t\tchildren.append(child)\n\n"
           "\t\tclades.append(Clade(clades=children))\n")
 VARIANTS = [
+    V('guard clause: fewer than three genomes print nothing (early-exit probe)', 'B', _T, "\tlink = hclust(dmat)\n", "\tif len(labels) < 3:\n\t\treturn\n\tlink = hclust(dmat)\n", 'U4'),
     V("method='single'", 'B', _C, "return linkage(sm, method='average')", "return linkage(sm, method='single')", 'U1'),
     V('right child height row off by one', 'B', _C, "link[right_i - nleaves, 2])", "link[right_i - nleaves + 1, 2])", 'U2'),
     V('left child height from the size column', 'B', _C, "link[left_i - nleaves, 2])", "link[left_i - nleaves, 3])", 'U2'),
